@@ -68,9 +68,68 @@ fn eval_arm(e: &Expr) -> Option<Value> {
     eval_filter_expr(e, &ev, &ctx)
 }
 
+// ---------------------------------------------------------------------------------------------
+// Virtual clock: this binary defines `clock_gettime`, which takes precedence over libc's symbol, so that
+// std::time::Instant::now() inside the real varpulis code reads a clock the replay controls exactly
+// (seconds + nanoseconds, as in the Kani harnesses' stub).  Inactive unless VIRTUAL is set.
+use std::sync::atomic::{AtomicBool, AtomicI64, Ordering as AO};
+static VIRTUAL: AtomicBool = AtomicBool::new(false);
+static VS: AtomicI64 = AtomicI64::new(0);
+static VN: AtomicI64 = AtomicI64::new(0);
+#[repr(C)]
+pub struct Timespec { tv_sec: i64, tv_nsec: i64 }
+#[no_mangle]
+pub unsafe extern "C" fn clock_gettime(clk: i32, ts: *mut Timespec) -> i32 {
+    if VIRTUAL.load(AO::SeqCst) {
+        (*ts).tv_sec = VS.load(AO::SeqCst) + 1000;
+        (*ts).tv_nsec = VN.load(AO::SeqCst);
+        return 0;
+    }
+    let ret: i64;
+    std::arch::asm!("syscall", inlateout("rax") 228i64 => ret, in("rdi") clk as i64, in("rsi") ts, lateout("rcx") _, lateout("r11") _, options(nostack));
+    ret as i32
+}
+fn set_clock(s: i64, n: i64) { VS.store(s, AO::SeqCst); VN.store(n, AO::SeqCst); VIRTUAL.store(true, AO::SeqCst); }
+
+/// breaker <threshold> <timeout_s> <step>...   step = ds:nanos:choice  (choice 0 allow_request, 1 record_success, 2 record_failure)
+/// Re-runs the history on the real CircuitBreaker under the virtual clock against the contract monitor.
+fn breaker(a: &[String]) {
+    use std::time::Duration;
+    use varpulis_runtime::circuit_breaker::{CircuitBreaker, CircuitBreakerConfig, State};
+    let thr: u32 = a[0].parse().unwrap(); let timeout_s: u64 = a[1].parse().unwrap();
+    set_clock(0, 0);
+    let cb = CircuitBreaker::new(CircuitBreakerConfig { failure_threshold: thr, reset_timeout: Duration::from_secs(timeout_s) });
+    let (mut m_state, mut m_fail, mut m_last_s, mut m_last_n, mut m_probe) = (State::Closed, 0u32, 0u64, 0u32, false);
+    let (mut now_s, mut now_n) = (0u64, 0u32);
+    let mut bad: Option<String> = None;
+    for (i, st) in a[2..].iter().enumerate() {
+        let p: Vec<u64> = st.split(':').map(|x| x.parse().unwrap()).collect();
+        now_s += p[0]; now_n = p[1] as u32; set_clock(now_s as i64, now_n as i64);
+        let mut fail = |m: &str| { if bad.is_none() { bad = Some(format!("step {i} ({st}): {m}")); } };
+        match p[2] {
+            0 => { let adm = cb.allow_request();
+                match m_state {
+                    State::Closed => if !adm { fail("closed breaker rejected a request") },
+                    State::Open => { let ds = now_s - m_last_s; let expired = if now_n >= m_last_n { ds >= timeout_s } else { ds >= timeout_s + 1 };
+                        if expired { if !adm { fail("first request after the reset timeout was not admitted as the probe") } m_state = State::HalfOpen; m_probe = true; }
+                        else if adm { fail("open breaker admitted a request before the reset timeout") } }
+                    State::HalfOpen => { if m_probe { if adm { fail("half-open breaker admitted a second request while the probe is outstanding") } } else { m_probe = true; } }
+                } }
+            1 => { cb.record_success(); m_fail = 0; if m_state == State::HalfOpen { m_state = State::Closed; m_probe = false; } }
+            _ => { cb.record_failure(); m_last_s = now_s; m_last_n = now_n;
+                match m_state { State::Closed => { m_fail += 1; if m_fail >= thr { m_state = State::Open; } } State::HalfOpen => { m_state = State::Open; m_probe = false; } State::Open => {} } }
+        }
+        if cb.state() != m_state { fail(&format!("state is {:?}, the contract says {:?}", cb.state(), m_state)); }
+    }
+    VIRTUAL.store(false, AO::SeqCst);
+    match bad { Some(m) => { println!("REPRODUCED CircuitBreaker(threshold={thr}, reset_timeout={timeout_s}s) history {:?}: {m}", &a[2..]); std::process::exit(1); }
+                None => println!("OK breaker history {:?} follows the contract", &a[2..]) }
+}
+
 fn main() {
     let a: Vec<String> = std::env::args().collect();
     match a[1].as_str() {
+        "breaker" => breaker(&a[2..]),
         // cmp <binop|arm> <Op> <lclass> <l> <rclass> <r>
         "cmp" => {
             let op = binop(&a[3]);
